@@ -53,7 +53,7 @@ static NvmVerifyResult verify_structure(const NvmModule *mod) {
         if (fn->code_offset > mod->code_size)
             return fail("function[%u] code_offset %u > code_size %u",
                         i, fn->code_offset, mod->code_size);
-        if (fn->code_offset + fn->code_length > mod->code_size)
+        if ((uint64_t)fn->code_offset + fn->code_length > mod->code_size)
             return fail("function[%u] code_offset+length %u > code_size %u",
                         i, fn->code_offset + fn->code_length, mod->code_size);
         if (fn->name_idx >= mod->string_count)
